@@ -188,13 +188,13 @@ def small_tables(alphabet, shapes):
 def run(ctx):
     quick = ctx.tier == "quick"
     cases = []
-    shapes = [(1, 1), (1, 2), (2, 1), (1, 3), (2, 2)] if quick else [(1, 1), (1, 2), (2, 1), (1, 3), (3, 1), (2, 2), (2, 3)]
+    shapes = [(1, 1), (1, 2), (2, 1), (1, 3), (3, 1), (2, 2)] if quick else [(1, 1), (1, 2), (2, 1), (1, 3), (3, 1), (2, 2), (2, 3), (3, 2)]
     for table in small_tables(SMALL, shapes):
         cases.append({"sheets": [table], "sheet": 1, "features": {}, "api": len(table) * len(table[0]) <= 2})
         cases.append({"sheets": [table], "sheet": 1, "features": {"col_runs": True, "row_runs": True}, "api": False})
-    for table in small_tables(ALPHABET, [(1, 1), (1, 2)] if quick else [(1, 1), (1, 2), (2, 1), (2, 2)]):
+    for table in small_tables(ALPHABET, [(1, 1), (1, 2), (2, 1)] if quick else [(1, 1), (1, 2), (2, 1), (2, 2), (1, 3)]):
         cases.append({"sheets": [table], "sheet": 1, "features": {}, "api": len(table[0]) == 1})
-    switch_limit = 2 if quick else len(SWITCHES)
+    switch_limit = 3 if quick else len(SWITCHES)
     for features in switch_sets(switch_limit):
         for table in STRUCTURED:
             cases.append({"sheets": [table], "sheet": 1, "features": features})
